@@ -434,6 +434,7 @@ func c05Program(r *report.R, id string) {
 			}
 			gethWatch = &watchTracer{watch: addrStaking}
 		}
+		supplyBefore := n.Supply(vn.Denom)
 		to := p.addr
 		tx := n.SignEth(a, vn.EthArgs{Data: []byte{1}, Type: rng.Intn(3), Nonce: n.EthNonce(a.Eth), To: &to, Gas: uint64(400000 + rng.Intn(2_000_000)), GasPrice: big.NewInt(1_000_000_000), GasFeeCap: big.NewInt(1_000_000_000), GasTipCap: big.NewInt(1_000_000_000), Value: big.NewInt(int64(rng.Intn(500)))})
 		addrs := append(append(all, p.targets()...), a.Eth)
@@ -570,6 +571,10 @@ func c05Program(r *report.R, id string) {
 				if got := now.Sub(sharesBefore[v.ValAddr.String()]); !got.Equal(w) {
 					mismatch += fmt.Sprintf("validator %s: delegated %s, surviving frames delegated %s; ", v.ValAddr.String()[len(v.ValAddr.String())-6:], got, w)
 				}
+			}
+			if sup := n.Supply(vn.Denom); !sup.Equal(supplyBefore) {
+				r.Violation(id, "evm+precompile-transactions|"+outcome+"|supply-changed", fmt.Sprintf("supply %s -> %s; %s", supplyBefore, sup, p.shape()), dbg)
+				break
 			}
 			// every surviving delegation emits one EVM log of the precompile, a dropped one none
 			if len(ers[0].Logs) != ref.Logs+kept {
